@@ -186,6 +186,8 @@ def run(loader, R, tier):
                      "equal type codes"),
             ("R2.7", "compare() returns the literal 0 only on paths whose "
                      "conditions are equalities of corresponding members"),
+            ("R2.9", "compare() does not consult hashes and is antisymmetric "
+                     "for every assignment of its boolean members"),
             ("R2.8", "every comparison inside compare() relates "
                      "corresponding parts of the two operands (antisymmetry "
                      "by construction)")):
@@ -515,6 +517,151 @@ def symmetry_rules(prog, P, R):
                             fk, o.line, show(c)[:80],
                             "true" if pol else "false"))
                     break
+    # ------------------------------------------------------------ R2.9
+    # (a) compare() must not consult hash values: unequal hashes imply
+    #     unequal operands, but equal hashes do not imply equal operands, so
+    #     a lexicographic step taken "because the hashes agree" skips a
+    #     component that may still differ (cmp == 0 for unequal objects,
+    #     intransitive order).
+    # (b) exhaustive antisymmetry over the boolean members: the decision is
+    #     evaluated for every assignment of the bool members of both
+    #     operands; whenever both cmp(a,b) and cmp(b,a) are decided by the
+    #     flags alone they must be opposite.
+    nbool = 0
+    for u, f in sorted(prog.functions.items(),
+                       key=lambda kv: kv[1]["qn"]):
+        if f.get("n") != "compare" or strip_type(f.get("ret")) != "int" \
+                or f.get("dependent") or f.get("tk") == "pattern" \
+                or not f.get("body") or not f.get("cls") \
+                or len(f.get("params", ())) != 1:
+            continue
+        fk = short(f["qn"])
+        for n in walk(f["body"]):
+            if n.get("k") == "mcall" and n.get("n") in ("hash", "__hash__"):
+                R.violation(
+                    "R2.9", fk + ":hash", prog.loc(f, n.get("l")),
+                    "%s consults `%s`: equal hashes do not imply equal "
+                    "operands, so the order may skip a component that still "
+                    "differs (cmp == 0 for unequal objects)" % (
+                        fk, show(n)[:50]))
+                break
+        oroot = other_root(f)
+        env = compare_env(P, f)
+        bools = sorted({fd["n"] for c, fd in prog.fields(f["cls"])
+                        if strip_type(fd["t"]) == "bool"})
+        if not bools:
+            continue
+        inits = {}
+        for d in walk(f["body"]):
+            if d.get("k") == "decl":
+                for v in d.get("v", ()):
+                    if v.get("i") is not None:
+                        inits[v["n"]] = v["i"]
+        try:
+            outs = sym.enumerate_paths(f["body"])
+        except AnalysisBroken:
+            continue
+
+        def ev(e, val, depth=0):
+            """bool/int value of e under `val` or None"""
+            if e is None or depth > 12:
+                return None
+            k = e.get("k")
+            if k == "lit":
+                if e.get("t") == "bool":
+                    return bool(e.get("v"))
+                try:
+                    return int(str(e.get("v")))
+                except ValueError:
+                    return None
+            if k == "cast":
+                return ev(e["a"][0], val, depth + 1)
+            if k == "un" and e.get("op") == "!":
+                a = ev(e["a"][0], val, depth + 1)
+                return None if a is None else (not a)
+            if k == "un" and e.get("op") == "-":
+                a = ev(e["a"][0], val, depth + 1)
+                return None if a is None else -a
+            if k == "bin" and e.get("op") in ("&&", "||"):
+                a = ev(e["a"][0], val, depth + 1)
+                b = ev(e["a"][1], val, depth + 1)
+                if e["op"] == "&&":
+                    if a is False or b is False:
+                        return False
+                    return True if (a is True and b is True) else None
+                if a is True or b is True:
+                    return True
+                return False if (a is False and b is False) else None
+            if k in ("bin", "op") and e.get("op") in ("==", "!=") \
+                    and len(e.get("a", ())) == 2:
+                a = ev(e["a"][0], val, depth + 1)
+                b = ev(e["a"][1], val, depth + 1)
+                if a is None or b is None:
+                    return None
+                return (a == b) if e["op"] == "==" else (a != b)
+            if k == "?:":
+                c = ev(e["a"][0], val, depth + 1)
+                if c is None:
+                    return None
+                return ev(e["a"][1 if c else 2], val, depth + 1)
+            if k == "ref" and e.get("d") == "local" and e["n"] in inits \
+                    and e["n"] not in env:
+                return ev(inits[e["n"]], val, depth + 1)
+            r = P.norm(e, env)
+            if r and len(r[1]) == 1 and r[1][0] in bools:
+                side = "t" if r[0] == "this" else (
+                    "o" if r[0] == oroot else None)
+                if side:
+                    return val[(side, r[1][0])]
+            return None
+
+        def decide(val):
+            for o in outs:
+                vs = [ev(c, val) for c, pol in [g for g in o.facts
+                                                if g[0] != "case"]]
+                pols = [pol for c, pol in [g for g in o.facts
+                                           if g[0] != "case"]]
+                status = True
+                for v, pol in zip(vs, pols):
+                    if v is None:
+                        status = None if status is not False else False
+                    elif bool(v) != bool(pol):
+                        status = False
+                        break
+                if status is False:
+                    continue
+                if status is None or o.kind != "return":
+                    return None
+                return ev(o.expr, val)
+            return None
+        import itertools
+        nbool += 1
+        keys = [(sd, b) for sd in ("t", "o") for b in bools]
+        witness = None
+        decided = 0
+        for bits in itertools.product((False, True), repeat=len(keys)):
+            val = dict(zip(keys, bits))
+            sw = {("t", b): val[("o", b)] for b in bools}
+            sw.update({("o", b): val[("t", b)] for b in bools})
+            a, b2 = decide(val), decide(sw)
+            if isinstance(a, int) and isinstance(b2, int) \
+                    and not isinstance(a, bool):
+                decided += 1
+                if a != -b2 and witness is None:
+                    witness = (val, a, b2)
+        R.instance("R2.9", fk, sample={"bool_members": bools,
+                                       "assignments_decided": decided})
+        if witness:
+            val, a, b2 = witness
+            desc = ", ".join("%s.%s=%d" % ("this" if sd == "t" else "other",
+                                           b, v)
+                             for (sd, b), v in sorted(val.items()))
+            R.violation(
+                "R2.9", fk + ":flags", prog.loc(f),
+                "%s is not antisymmetric on its boolean members: for %s "
+                "cmp(a,b) = %d but cmp(b,a) = %d" % (fk, desc, a, b2))
+    R.floor("compare() overrides with boolean members evaluated "
+            "exhaustively", nbool, 1)
     R.floor("compare() overrides checked for symmetry", ncmp, 55)
     R.floor("comparisons relating both operands", nprim, 120)
     R.floor("literal-zero returns", nzero, 12)
